@@ -54,6 +54,10 @@ COMPUTED_COLS = ["bind::nodeset", "body::ref", "body::nodeset", "instance::id", 
 
 
 def blocks(tier):
+    from xmc import corpus
+
+    for s in range(0, len(corpus.load()), 100):
+        yield ("corpus", s)
     N = 5 if tier == "quick" else 6
     ND = 5 if tier == "quick" else 6
     n = sum(1 for _ in forests_upto(N, 3))
@@ -82,6 +86,12 @@ def _forest(fi):
 
 
 def expand(block, tier):
+    if block[0] == "corpus":
+        from xmc import corpus
+
+        for e in corpus.load()[block[1]:block[1] + 100]:
+            yield {"corpus": e["id"], "wb": e["wb"]}
+        return
     forest = _forest(block[1])
     fj = forest_to_json(forest)
     n = len(flatten(forest, NAMES))
@@ -407,7 +417,24 @@ def check_include(case):
     return {"outcome": "include-ok", "nt": len(case["include"]) > 1 and not viol, "viol": viol[:4], "tr": ntr}
 
 
+def check_corpus(case):
+    """a realistic workbook of the frozen corpus: the closure invariant on the accepted output"""
+    wb = case["wb"]
+    out = run_convert(wb)
+    ntr = len(wb["survey"])
+    if out.kind != "ok":
+        return {"outcome": f"corpus-{out.kind}", "nt": False, "viol": [], "tr": ntr}
+    try:
+        obs = O.Obs(out.xform)
+    except O.ParseFailure as e:
+        return {"outcome": "ok", "nt": False, "viol": [("unparseable:corpus", str(e))], "tr": ntr}
+    viol = [(f"{k}:corpus", d) for k, d in closure_problems(obs)]
+    return {"outcome": "ok", "nt": not viol, "viol": viol[:4], "tr": ntr}
+
+
 def check_one(case):
+    if case.get("corpus"):
+        return check_corpus(case)
     if case.get("include") is not None:
         return check_include(case)
     if case.get("move"):
